@@ -146,6 +146,14 @@ class BasisSHO(BasisSet):
         return f"BasisSHO(dof: {self.dof}, x0: {self.x0}, omega: {self.omega}, nbas: {self.nbas})"
 
     def op_mat(self, op: Union[Op, str]):
+        try:
+            return self._op_mat(op)
+        except Exception:
+            # an unsupported symbol must not leave the recursion depth counter incremented
+            self._recursion_flag = 0
+            raise
+
+    def _op_mat(self, op: Union[Op, str]):
         if not isinstance(op, Op):
             op = Op(op, None)
         op_symbol, op_factor = op.symbol, op.factor
@@ -450,6 +458,15 @@ class BasisSineDVR(BasisSet):
         return f"BasisSineDVR(xi: {self.xi}, xf: {self.xf}, nbas: {self.nbas})"
 
     def op_mat(self, op: Union[Op, str]):
+        try:
+            return self._op_mat(op)
+        except Exception:
+            # an unsupported symbol must not leave the recursion depth counter incremented,
+            # otherwise the DVR transformation is silently skipped from then on
+            self._recursion_flag = 0
+            raise
+
+    def _op_mat(self, op: Union[Op, str]):
         
         if not isinstance(op, Op):
             op = Op(op, None)
